@@ -13,23 +13,63 @@ def gen_standard_cfg(r, tier):
         lmax = lmin + r.choice([0, 1, 2, 3] if dim <= 3 else [0, 1, 2])
         calls.append([lmin, lmax])
     a = [r.choice(A_CHOICES) for _ in range(dim)]
-    return {"strategy": "standard", "dim": dim, "a": a, "b": [a[d] + r.choice(W_CHOICES) for d in range(dim)],
-            "boundary": r.random() < 0.7, "calls": calls, "nnoise": r.choice([1, 2, 3])}
+    cfg = {"strategy": "standard", "dim": dim, "a": a, "b": [a[d] + r.choice(W_CHOICES) for d in range(dim)],
+           "boundary": r.random() < 0.7, "calls": calls, "nnoise": r.choice([1, 2, 3])}
+    _draw_grid(r, cfg)
+    return cfg
+
+
+# local grid families that run under StandardCombi / DimAdaptiveCombi in the pinned environment ("every grid type" of C05);
+# NODAL = families whose public points and combined weights are a quadrature rule (clause 5 of C05)
+STD_GRIDS = ["TrapezoidalGrid", "ClenshawCurtisGrid", "GaussLegendreGrid", "SimpsonGrid", "LejaGrid", "LagrangeGrid2", "LagrangeGrid3", "BSplineGrid3"]
+NODAL = ("TrapezoidalGrid", "ClenshawCurtisGrid", "GaussLegendreGrid", "SimpsonGrid", "LejaGrid")
+
+
+def _draw_grid(r, cfg):
+    cfg["grid"] = r.choice(["TrapezoidalGrid"] * 5 + STD_GRIDS[1:])
+    if cfg["grid"] in ("LagrangeGrid2", "LagrangeGrid3", "BSplineGrid3"):
+        cfg["boundary"] = True          # the hierarchical local grids assert boundary points
+    if cfg["grid"] != "TrapezoidalGrid":
+        # high-order families: keep the component grids small (Leja optimises its points, Lagrange / B-spline hierarchise)
+        cfg["dim"] = min(cfg["dim"], 3)
+        cfg["a"], cfg["b"] = cfg["a"][:cfg["dim"]], cfg["b"][:cfg["dim"]]
+        if "calls" in cfg:
+            cfg["calls"] = [[lo, min(hi, lo + 2, 4)] for lo, hi in ([min(c[0], 2), c[1]] for c in cfg["calls"])]
+            cfg["calls"] = [[lo, max(lo, hi)] for lo, hi in cfg["calls"]]
+
+
+def make_std_grid(cfg):
+    import sparseSpACE.Grid as G
+    a, b = np.array(cfg["a"], dtype=float), np.array(cfg["b"], dtype=float)
+    name = cfg.get("grid", "TrapezoidalGrid")
+    if name == "GaussLegendreGrid":
+        return G.GaussLegendreGrid(a=a, b=b)
+    if name in ("LagrangeGrid2", "LagrangeGrid3"):
+        return G.LagrangeGrid(a=a, b=b, boundary=True, p=int(name[-1]))
+    if name == "BSplineGrid3":
+        return G.BSplineGrid(a=a, b=b, boundary=True, p=3)
+    return getattr(G, name)(a=a, b=b, boundary=cfg["boundary"])
 
 
 def gen_dimadaptive_cfg(r, tier):
     dim = r.choice([2, 2, 3])
     a = [r.choice(A_CHOICES) for _ in range(dim)]
-    return {"strategy": "dim_adaptive", "dim": dim, "a": a, "b": [a[d] + r.choice(W_CHOICES) for d in range(dim)],
-            "boundary": r.random() < 0.7, "max_points": r.choice([10, 30, 60, 120, 250] if dim == 2 else [30, 80, 200]),
-            "nnoise": r.choice([1, 2]), "p_zero": 0.0, "second_call": r.random() < 0.4}   # zero surpluses everywhere make the driver spin without progress (caller's contract)
+    cfg = {"strategy": "dim_adaptive", "dim": dim, "a": a, "b": [a[d] + r.choice(W_CHOICES) for d in range(dim)],
+           "boundary": r.random() < 0.7, "max_points": r.choice([10, 30, 60, 120, 250] if dim == 2 else [30, 80, 200]),
+           "nnoise": r.choice([1, 2]), "p_zero": 0.0, "second_call": r.random() < 0.4}   # zero surpluses everywhere make the driver spin without progress (caller's contract)
+    _draw_grid(r, cfg)
+    cfg["levels"] = [r.choice([1, 1, 2]), 2]        # perform_combi asserts maxv == 2
+    if cfg["grid"] == "LejaGrid":
+        cfg["grid"] = "ClenshawCurtisGrid"          # Leja point optimisation: ~20 s per dimension-adaptive run
+    if cfg["grid"] != "TrapezoidalGrid":
+        cfg["max_points"] = min(cfg["max_points"], 120)
+    return cfg
 
 
 def _fresh_component(cfg, f, lv):
-    from sparseSpACE.Grid import TrapezoidalGrid
     from simcore.env import SimFunction
     a, b = np.array(cfg["a"], dtype=float), np.array(cfg["b"], dtype=float)
-    g = TrapezoidalGrid(a=a, b=b, boundary=cfg["boundary"])
+    g = make_std_grid(cfg)
     f2 = SimFunction(f.key, nnoise=f.nnoise, offset=f.offset)
     v = np.asarray(g.integrate(f2, [int(x) for x in lv], a, b), dtype=float)
     g.setCurrentArea(a, b, [int(x) for x in lv])
@@ -51,9 +91,10 @@ def run_standard(cfg, rk, ctx):
     from simcore.env import SimFunction
     a, b = np.array(cfg["a"], dtype=float), np.array(cfg["b"], dtype=float)
     f = SimFunction(rk, nnoise=cfg["nnoise"])
-    op = Integration(f=f, grid=TrapezoidalGrid(a=a, b=b, boundary=cfg["boundary"]), dim=cfg["dim"], print_level=100, log_level=100)
+    op = Integration(f=f, grid=make_std_grid(cfg), dim=cfg["dim"], print_level=100, log_level=100)
     sc = StandardCombi(a, b, operation=op, print_level=100, log_level=100)
-    sig = {"strategy": "standard"}
+    sig = {"strategy": "standard", "grid": cfg.get("grid", "TrapezoidalGrid")}
+    ctx.exc_sig = dict(sig)
     for k, (lmin, lmax) in enumerate(cfg["calls"]):
         scheme, err, res = sc.perform_operation(lmin, lmax)
         ctx.step()
@@ -64,12 +105,15 @@ def run_standard(cfg, rk, ctx):
             v, s = _fresh_component(cfg, f, cg.levelvector)
             want += cg.coefficient * v; S += abs(cg.coefficient) * s
         _compare(ctx, "reported_equals_combination", sig, res, want, S, len(scheme), "call %d (lmin %d, lmax %d)" % (k, lmin, lmax))
-        P, W = sc.get_points_and_weights()
-        acc = np.zeros(f.output_length())
-        for p, w in zip(P, W):
-            acc += w * np.asarray(f.peek(tuple(float(x) for x in p)), dtype=float)
-        _compare(ctx, "points_and_weights_reproduce_integral", sig, acc, res, S, len(scheme), "call %d: sum w f over get_points_and_weights()" % k)
+        if cfg.get("grid", "TrapezoidalGrid") in NODAL:
+            P, W = sc.get_points_and_weights()
+            acc = np.zeros(f.output_length())
+            for p, w in zip(P, W):
+                acc += w * np.asarray(f.peek(tuple(float(x) for x in p)), dtype=float)
+            _compare(ctx, "points_and_weights_reproduce_integral", sig, acc, res, S, len(scheme), "call %d: sum w f over get_points_and_weights()" % k)
         ctx.probe("standard_call_checked")
+        if cfg.get("grid", "TrapezoidalGrid") != "TrapezoidalGrid":
+            ctx.probe("standard_high_order_grid")
 
 
 def run_dimadaptive(cfg, rk, ctx):
@@ -80,9 +124,11 @@ def run_dimadaptive(cfg, rk, ctx):
     a, b = np.array(cfg["a"], dtype=float), np.array(cfg["b"], dtype=float)
     f = SimFunction(rk, nnoise=cfg["nnoise"], offset=3.0)     # offset keeps the relative error defined
     ref = np.full(f.output_length(), 1234.5)                  # unreachable reference: the point limit decides the stop
-    op = Integration(f=f, grid=TrapezoidalGrid(a=a, b=b, boundary=cfg["boundary"]), dim=cfg["dim"], reference_solution=ref,
+    op = Integration(f=f, grid=make_std_grid(cfg), dim=cfg["dim"], reference_solution=ref,
                      print_level=100, log_level=100)
     da = DimAdaptiveCombi(a, b, op)
+    ctx.exc_sig = {"strategy": "dim_adaptive", "grid": cfg.get("grid", "TrapezoidalGrid")}
+    lmin, lmax = cfg.get("levels", [1, 2])
     asked = []
 
     def surplus(component_grid, integral_dict):     # the environment's answer: which index is refined next
@@ -93,7 +139,7 @@ def run_dimadaptive(cfg, rk, ctx):
     limits = [cfg["max_points"]] + ([cfg["max_points"] * 2] if cfg.get("second_call") else [])
     for call, mp in enumerate(limits):
         # a second perform_combi on the same object (history of calls: index sets and caches of the first call must not leak)
-        scheme, err, res, errors, num_points = da.perform_combi(1, 2, 1e-12, max_number_of_points=mp)
+        scheme, err, res, errors, num_points = da.perform_combi(lmin, lmax, 1e-12, max_number_of_points=mp)
         _judge_dimadaptive(cfg, rk, ctx, f, scheme, res, errors, call)
 
 
@@ -105,7 +151,7 @@ def _judge_dimadaptive(cfg, rk, ctx, f, scheme, res, errors, call):
     for cg in scheme:
         v, s = _fresh_component(cfg, f, cg.levelvector)
         want += cg.coefficient * v; S += abs(cg.coefficient) * s
-    _compare(ctx, "reported_equals_combination", {"strategy": "dim_adaptive", "call": call}, res, want, S, len(scheme),
+    _compare(ctx, "reported_equals_combination", {"strategy": "dim_adaptive", "call": call, "grid": cfg.get("grid", "TrapezoidalGrid")}, res, want, S, len(scheme),
              "perform_combi call %d: after %d refinement steps, scheme of %d grids" % (call, len(errors), len(scheme)))
     if len(errors) > 0:
         ctx.probe("dim_adaptive_refined")
